@@ -87,7 +87,7 @@ func zzCheckHelloSyntax(raw []byte, class string) (zzRefHello, bool) {
 // That every legal swap preserves the multiset and the fixed positions is a
 // separate one-step lemma (C03 shuffle_swap_lemma).
 func zzStubShuffle(r *mrand.Rand, n int, swap func(i, j int)) {
-	if n < 2 || !verifThorough() {
+	if n < 2 || !verifThorough() || zzNoShuffle {
 		return
 	}
 	if verifBool("shuffle-swaps") {
